@@ -2,7 +2,7 @@
 (***************************************************************************)
 (* C16 - the abstract meaning of "deletion never loses data", stated on a   *)
 (* client-visible history of concurrent requests on ONE bucket and ONE key: *)
-(*   H.ops    request id -> [op, res, part]                                  *)
+(*   H.ops    request id -> [op, res, part, who (the account)]                *)
 (*              op   "put" | "cmp" (CompleteMultipartUpload) | "mpu"         *)
 (*                   (CreateMultipartUpload, then UploadPart) | "del"        *)
 (*                   (DeleteBucket) | "mk" (CreateBucket)                    *)
@@ -34,13 +34,20 @@ NoZombieBucket(H) == H.final.bucket => H.final.owned
 \* an acknowledged upload is retrievable when no DeleteBucket succeeded at all
 AckedDurable(H) == (~Deleted(H) /\ Acked(H) # {}) => Retrievable(H)
 
+\* creating a bucket that exists fails: without a successful DeleteBucket in between, two
+\* CreateBucket requests of DIFFERENT accounts for one name are never both acknowledged
+Creators(H) == {p \in DOMAIN H.ops : H.ops[p].op = "mk" /\ H.ops[p].res = "ok"}
+OneCreator(H) == ~Deleted(H) => \A p, q \in Creators(H) : H.ops[p].who = H.ops[q].who
+
 Broken(H) == (IF AckedNotLost(H) THEN {} ELSE {"acked-lost"})
         \cup (IF NoZombieBucket(H) THEN {} ELSE {"zombie-bucket"})
         \cup (IF AckedDurable(H) THEN {} ELSE {"acked-missing"})
+        \cup (IF OneCreator(H) THEN {} ELSE {"two-creators"})
 HistoryOK(H) == Broken(H) = {}
 Classify(H) ==
     IF ~AckedNotLost(H) THEN "acked-lost"
     ELSE IF ~NoZombieBucket(H) THEN "zombie-bucket"
     ELSE IF ~AckedDurable(H) THEN "acked-missing"
+    ELSE IF ~OneCreator(H) THEN "two-creators"
     ELSE "ok"
 =============================================================================
